@@ -451,6 +451,27 @@ func checkC02(res *Result) {
 		}
 	}
 
+	// R9: every recipient is tried
+	res.Rule("C02-R9", "every recipient is tried: each way round the loop of resolveActors passes through the dereference (no element is skipped on a condition other than the depth limit checked before the loop), and each way round the stored-inbox loop of prepare passes through InboxForActor")
+	if f := p.MustFunc(res, "C02-R9", "sideEffectActor.resolveActors"); f != nil {
+		for _, c := range findCalls(E, f, "sideEffectActor.dereferenceForResolvingInboxes") {
+			checkEveryElementTried(res, p, "C02-R9", f, c, "every element of the recipient list is dereferenced", "an addressed actor or collection is silently left out (for instance because it was seen before at a depth where its members were cut off)")
+		}
+	}
+	if f := p.MustFunc(res, "C02-R9", "sideEffectActor.prepare"); f != nil {
+		for _, c := range findCalls(E, f, "Database.InboxForActor") {
+			checkEveryElementTried(res, p, "C02-R9", f, c, "the application is asked for the stored inbox of every recipient", "a recipient's stored inbox is never looked up")
+		}
+	}
+	// R10: no write through a list while it is ranged over
+	res.Rule("C02-R10", "the recipient lists are not written through while they are being ranged over (an in-place helper applied to the list under iteration makes the walk skip the element after each hit)")
+	nRange := 0
+	for _, name := range reachFrom(p, E, "sideEffectActor.Deliver") {
+		if f := p.Func(name); f != nil && p.HasFunc(name) {
+			nRange += checkNoWriteWhileRanging(res, p, "C02-R10", f)
+		}
+	}
+	res.Count("C02-R10 range-over-slice loops on the delivery path", nRange, 5)
 	// R6
 	if f := p.MustFunc(res, "C02-R6", "sideEffectActor.deliverToRecipients"); f != nil {
 		bd := findCalls(E, f, "Transport.BatchDeliver")
